@@ -392,6 +392,23 @@ func (e *Env) evalBin(x EBin) Val {
 		}
 		return VBool{r}
 	case "<", "<=", ">", ">=":
+		a, b := e.eval(x.X), e.eval(x.Y)
+		_, ra := a.(VReal)
+		_, rb := b.(VReal)
+		if ra || rb {
+			// comparison over the reals (an integer operand is converted)
+			tr := func(v Val) string {
+				switch v := v.(type) {
+				case VReal:
+					return v.T
+				case VInt:
+					return app("to_real", v.T)
+				}
+				sfail("real comparison with %T", v)
+				return ""
+			}
+			return VBool{app(x.Op, tr(a), tr(b))}
+		}
 		return VBool{app(x.Op, e.evalInt(x.X), e.evalInt(x.Y))}
 	case "+":
 		a := e.eval(x.X)
